@@ -31,7 +31,8 @@ CONSTANTS MaxIn,      \* messages the client may stream
           Kinds,      \* subset of the kinds above
           Outcomes,   \* subset of {"ok", "app", "panic"}
           EarlyEnd,   \* FALSE; TRUE lets the caller see the end of a stream nobody ended (must break the refinement)
-          WithDrop    \* scripts may lose the connection at any point of the call
+          WithDrop,   \* scripts may lose the connection at any point of the call
+          WithFree    \* scripts may free a streaming call from a second goroutine while the first one waits in Response
 
 VARIABLES kind, outcome,
           begun,      \* the client has issued the call
@@ -43,9 +44,11 @@ VARIABLES kind, outcome,
           c2s, s2c,   \* [sent, got, endSent, endSeen]
           dropped,    \* the connection was lost during the call
           hAtDrop,    \* what the handler had returned when it was lost
+          pend,       \* "no" | "waiting" (a goroutine of the caller is inside Response) | "freed" (... and the call was freed
+                      \* by another goroutine meanwhile) | "joined" (that Response has returned)
           script
 
-vars == <<kind, outcome, begun, creturned, started, started2, hret, hret2, c2s, s2c, dropped, hAtDrop, script>>
+vars == <<kind, outcome, begun, creturned, started, started2, hret, hret2, c2s, s2c, dropped, hAtDrop, pend, script>>
 
 NoStream == [sent |-> 0, got |-> 0, endSent |-> FALSE, endSeen |-> FALSE]
 HasIn == kind \in {"in", "inout"}
@@ -56,11 +59,11 @@ Streaming == kind \in {"in", "out", "inout"}
 Init == /\ kind \in Kinds /\ outcome \in Outcomes
         /\ (kind = "oneway" => outcome = "ok")          \* nothing of a oneway handler is visible to the caller
         /\ begun = FALSE /\ creturned = FALSE /\ started = FALSE /\ started2 = FALSE
-        /\ hret = "none" /\ hret2 = "none" /\ c2s = NoStream /\ s2c = NoStream /\ dropped = FALSE /\ hAtDrop = "none" /\ script = <<>>
+        /\ hret = "none" /\ hret2 = "none" /\ c2s = NoStream /\ s2c = NoStream /\ dropped = FALSE /\ hAtDrop = "none" /\ pend = "no" /\ script = <<>>
 
 Step(who, op, n, expect) ==
     /\ script' = Append(script, [who |-> who, op |-> op, n |-> n, expect |-> expect])
-    /\ UNCHANGED <<kind, outcome, dropped, hAtDrop>>
+    /\ UNCHANGED <<kind, outcome, dropped, hAtDrop, pend>>
 
 \* ---------------------------------------------------------------- client
 \* the call is issued: a blocking call goes on in its own goroutine, a streaming call returns its channel at once
@@ -70,26 +73,26 @@ CCall ==
     /\ Step("c", "call", 0, "ok")
 
 CSend ==
-    /\ begun /\ ~dropped /\ HasIn /\ ~c2s.endSent /\ hret = "none" /\ ~creturned /\ c2s.sent < MaxIn
+    /\ begun /\ ~dropped /\ pend = "no" /\ HasIn /\ ~c2s.endSent /\ hret = "none" /\ ~creturned /\ c2s.sent < MaxIn
     /\ c2s' = [c2s EXCEPT !.sent = @ + 1]
     /\ UNCHANGED <<begun, creturned, started, started2, hret, hret2, s2c>>
     /\ Step("c", "send", c2s.sent + 1, "ok")
 
 CSendEnd ==
-    /\ begun /\ ~dropped /\ HasIn /\ ~c2s.endSent /\ hret = "none" /\ ~creturned
+    /\ begun /\ ~dropped /\ pend = "no" /\ HasIn /\ ~c2s.endSent /\ hret = "none" /\ ~creturned
     /\ c2s' = [c2s EXCEPT !.endSent = TRUE]
     /\ UNCHANGED <<begun, creturned, started, started2, hret, hret2, s2c>>
     /\ Step("c", "sendend", 0, "ok")
 
 CRecv ==
-    /\ begun /\ ~dropped /\ HasOut /\ ~creturned /\ s2c.got < s2c.sent
+    /\ begun /\ ~dropped /\ pend = "no" /\ HasOut /\ ~creturned /\ s2c.got < s2c.sent
     /\ s2c' = [s2c EXCEPT !.got = @ + 1]
     /\ UNCHANGED <<begun, creturned, started, started2, hret, hret2, c2s>>
     /\ Step("c", "recv", s2c.got + 1, "msg")
 
 \* the end of the handler's stream: it ended it, or it returned (the response closes the stream)
 CRecvEnd ==
-    /\ begun /\ ~dropped /\ HasOut /\ ~creturned /\ ~s2c.endSeen /\ s2c.got = s2c.sent /\ (EarlyEnd \/ s2c.endSent \/ hret # "none")
+    /\ begun /\ ~dropped /\ pend = "no" /\ HasOut /\ ~creturned /\ ~s2c.endSeen /\ s2c.got = s2c.sent /\ (EarlyEnd \/ s2c.endSent \/ hret # "none")
     /\ s2c' = [s2c EXCEPT !.endSeen = TRUE]
     /\ UNCHANGED <<begun, creturned, started, started2, hret, hret2, c2s>>
     /\ Step("c", "recvend", 0, "end")
@@ -100,7 +103,7 @@ CRecvEnd ==
 \* After the connection was lost the caller gets its outcome at once: a non-OK status, or - when the handler had returned
 \* before the loss, so that its response may have arrived - that very outcome ("maybe-...").
 CReturn ==
-    /\ begun /\ ~creturned /\ (kind = "oneway" \/ hret # "none" \/ dropped)
+    /\ begun /\ ~creturned /\ pend = "no" /\ (kind = "oneway" \/ hret # "none" \/ dropped)
     /\ creturned' = TRUE
     /\ UNCHANGED <<begun, started, started2, hret, hret2, c2s, s2c>>
     /\ Step("c", IF Blocking THEN "ret" ELSE "response", 0,
@@ -109,11 +112,29 @@ CReturn ==
 
 \* the connection is lost (a proxy between the two ends cuts it); streams stop, the handler can still return
 Drop ==
-    /\ WithDrop /\ begun /\ ~dropped /\ ~creturned /\ kind # "oneway"
+    /\ WithDrop /\ begun /\ ~dropped /\ ~creturned /\ kind # "oneway" /\ pend = "no"
     /\ Blocking => started        \* a blocking call runs in its own goroutine: once its handler was entered the connection exists
     /\ dropped' = TRUE /\ hAtDrop' = hret
     /\ script' = Append(script, [who |-> "x", op |-> "drop", n |-> 0, expect |-> "ok"])
-    /\ UNCHANGED <<kind, outcome, begun, creturned, started, started2, hret, hret2, c2s, s2c>>
+    /\ UNCHANGED <<kind, outcome, begun, creturned, started, started2, hret, hret2, c2s, s2c, pend>>
+
+\* A goroutine of the caller waits in Response while the handler has not returned; a second goroutine frees the call;
+\* the handler returns; the first goroutine's Response returns (what it returns is not judged: the response, or a
+\* status saying that the call was freed).  The call state is pooled: the point is that it is not given back while the
+\* first goroutine is still inside, so that the calls of the following scripts find it clean.
+PendMove(p2, op, expect) ==
+    /\ pend' = p2
+    /\ script' = Append(script, [who |-> "c", op |-> op, n |-> 0, expect |-> expect])
+    /\ UNCHANGED <<kind, outcome, begun, started, started2, hret, hret2, c2s, s2c, dropped, hAtDrop>>
+CAsyncResponse ==
+    /\ WithFree /\ Streaming /\ begun /\ ~dropped /\ ~creturned /\ pend = "no" /\ hret = "none"
+    /\ UNCHANGED creturned /\ PendMove("waiting", "response-start", "ok")
+CFreeEarly ==
+    /\ pend = "waiting" /\ hret = "none"
+    /\ UNCHANGED creturned /\ PendMove("freed", "free", "ok")
+CJoin ==
+    /\ pend \in {"waiting", "freed"} /\ hret # "none"
+    /\ creturned' = TRUE /\ PendMove("joined", "response-join", IF pend = "freed" THEN "any" ELSE hret)
 
 \* ---------------------------------------------------------------- handler
 \* the handler is entered with the request (observed, not commanded)
@@ -150,25 +171,25 @@ SReturn2 ==
     /\ Step("s", "return2", 0, outcome)
 
 SRecv ==
-    /\ started /\ ~dropped /\ HasIn /\ hret = "none" /\ c2s.got < c2s.sent
+    /\ started /\ ~dropped /\ pend # "freed" /\ HasIn /\ hret = "none" /\ c2s.got < c2s.sent
     /\ c2s' = [c2s EXCEPT !.got = @ + 1]
     /\ UNCHANGED <<begun, creturned, started, started2, hret, hret2, s2c>>
     /\ Step("s", "recv", c2s.got + 1, "msg")
 
 SRecvEnd ==
-    /\ started /\ ~dropped /\ HasIn /\ hret = "none" /\ ~c2s.endSeen /\ c2s.endSent /\ c2s.got = c2s.sent
+    /\ started /\ ~dropped /\ pend # "freed" /\ HasIn /\ hret = "none" /\ ~c2s.endSeen /\ c2s.endSent /\ c2s.got = c2s.sent
     /\ c2s' = [c2s EXCEPT !.endSeen = TRUE]
     /\ UNCHANGED <<begun, creturned, started, started2, hret, hret2, s2c>>
     /\ Step("s", "recvend", 0, "end")
 
 SSend ==
-    /\ started /\ ~dropped /\ HasOut /\ hret = "none" /\ ~s2c.endSent /\ s2c.sent < MaxOut
+    /\ started /\ ~dropped /\ pend # "freed" /\ HasOut /\ hret = "none" /\ ~s2c.endSent /\ s2c.sent < MaxOut
     /\ s2c' = [s2c EXCEPT !.sent = @ + 1]
     /\ UNCHANGED <<begun, creturned, started, started2, hret, hret2, c2s>>
     /\ Step("s", "send", s2c.sent + 1, "ok")
 
 SSendEnd ==
-    /\ started /\ ~dropped /\ HasOut /\ hret = "none" /\ ~s2c.endSent
+    /\ started /\ ~dropped /\ pend # "freed" /\ HasOut /\ hret = "none" /\ ~s2c.endSent
     /\ s2c' = [s2c EXCEPT !.endSent = TRUE]
     /\ UNCHANGED <<begun, creturned, started, started2, hret, hret2, c2s>>
     /\ Step("s", "sendend", 0, "ok")
@@ -181,7 +202,7 @@ SReturn ==
     /\ UNCHANGED <<begun, creturned, started, started2, hret2, c2s, s2c>>
     /\ Step("s", "return", 0, IF kind = "sub" THEN hret2 ELSE outcome)
 
-Next == CCall \/ CSend \/ CSendEnd \/ CRecv \/ CRecvEnd \/ CReturn \/ Drop
+Next == CCall \/ CSend \/ CSendEnd \/ CRecv \/ CRecvEnd \/ CReturn \/ Drop \/ CAsyncResponse \/ CFreeEarly \/ CJoin
         \/ SStart \/ SRequest \/ SRequestLate \/ SNext \/ SReturn2 \/ SRecv \/ SRecvEnd \/ SSend \/ SSendEnd \/ SReturn
 
 Spec == Init /\ [][Next]_vars
@@ -219,11 +240,12 @@ RNext == \/ \E k \in {"unary", "oneway", "stream"} : R!CallBegin(1, k)
          \/ \E d \in {"c2s", "s2c"} : \/ \E n \in 1..(MaxIn + MaxOut) : R!Send(d, 1, n) \/ R!Recv(d, 1, n)
                                        \/ R!SendEnd(d, 1)
                                        \/ \E sd \in BOOLEAN : sd = (IF d = "s2c" THEN hret # "none" ELSE creturned) /\ R!RecvEnd(d, 1, sd)
-RefinesRpc == [][RNext]_<<RKind, started, hret, RCend, c2s, s2c, dropped>>
+RefinesRpc == [][RNext]_<<RKind, started, hret, RCend, c2s, s2c, dropped>>      \* (pend is not part of the view)
 RpcInvariants == R!HandlerAtMostOnce /\ R!OkOnlyIfServerSentOk /\ R!StreamPrefix
 
 \* a script is emitted when it is complete; incomplete prefixes are not executed on their own
 Emit == Done => PrintT(ToJson([kind |-> kind, outcome |-> outcome, script |-> script]))
 \* only the scripts in which the connection is lost (the others come from the configurations without WithDrop)
+EmitFree == (Done /\ pend = "joined") => PrintT(ToJson([kind |-> kind, outcome |-> outcome, script |-> script]))
 EmitDrop == (Done /\ dropped) => PrintT(ToJson([kind |-> kind, outcome |-> outcome, script |-> script]))
 =============================================================================
